@@ -211,6 +211,34 @@ def nd_dim(ver, m, equiv, extra=()):
     return {"name": m, "opts": [{}, {m: ND[ver]}, {m: equiv}] + [{m: x} for x in extra]}
 
 
+def sp(ver, m, values=None):
+    """a metric in every spelling: absent, Not Defined, every defined value"""
+    return {"name": m, "opts": [{}, {m: ND[ver]}] + [{m: v} for v in (values if values is not None else V[ver].get(m, []))]}
+
+
+def eq_tables(tier, seed):
+    """products over *optional* metrics in every spelling (absent / Not Defined / each value) on fixed base vectors: all objects of a
+    row go into one Python set; TLC computes how many distinct objects the specification's equality admits"""
+    tabs = []
+    b2 = {"AV": "N", "AC": "L", "Au": "N", "C": "P", "I": "P", "A": "P"}
+    tabs.append(header("2", -1, b2, [dim("2", "C")], [sp("2", m) for m in ["E", "RL", "RC", "CDP", "TD"]]))            # 6*6*5*7*6 = 7560
+    tabs.append(header("2", -1, b2, [dim("2", "A")], [sp("2", m) for m in ["RC", "CDP", "TD", "CR", "IR", "AR"]]))      # 5*7*6*5*5*5 = 26250
+    b3 = {"AV": "N", "AC": "L", "PR": "L", "UI": "N", "S": "U", "C": "H", "I": "L", "A": "N"}
+    for minor in (0, 1):
+        tabs.append(header("3", minor, b3, [dim("3", "S")], [sp("3", m) for m in ["E", "RL", "RC", "CR", "IR", "AR"]]))          # 6*6*5*5*5*5
+        tabs.append(header("3", minor, b3, [dim("3", "PR")], [sp("3", m) for m in ["MAV", "MAC", "MPR", "MUI", "MS", "AR"]]))     # 6*4*5*4*4*5
+        tabs.append(header("3", minor, b3, [dim("3", "C")], [sp("3", m) for m in ["MS", "MC", "MI", "MA", "CR", "RC"]]))          # 4*5*5*5*5*5
+    ex4 = ["N", "Y"]
+    v4x = {"S": "NP", "AU": "NY", "R": "AUI", "V": "DC", "RE": "LMH", "U": ["Clear", "Green", "Amber", "Red"],
+           "MAV": "NALP", "MAC": "LH", "MAT": "NP", "MPR": "NLH", "MUI": "NPA", "MVC": "HLN", "MVI": "HLN", "MVA": "HLN", "MSC": "HLN", "MSI": "SHLN", "MSA": "SHLN"}
+    f4 = dict(BASE4_N)
+    tabs.append(header("4", -1, f4, [dim("4", "AV", values="NP")], [sp("4", "E"), sp("4", "CR"), sp("4", "IR"), sp("4", "AR")] + [sp("4", m, v4x[m]) for m in ["S", "AU", "U"]]))   # 5*5*5*5*4*4*6
+    tabs.append(header("4", -1, f4, [dim("4", "AV", values="NP")], [sp("4", m, v4x[m]) for m in ["R", "V", "RE", "MAV", "MAC", "MAT"]] + [sp("4", "E")]))
+    tabs.append(header("4", -1, f4, [dim("4", "AV", values="NP")], [sp("4", m, v4x[m]) for m in ["MPR", "MUI", "MVC", "MVI", "MSI", "U"]]))
+    tabs.append(header("4", -1, f4, [dim("4", "AV", values="NP")], [sp("4", m, v4x[m]) for m in ["MVA", "MSC", "MSA", "S", "RE"]] + [sp("4", "AR")]))
+    return tabs
+
+
 def equiv_tables(tier, seed):
     """layouts whose inner dimensions contain *equivalent* spellings (absent / Not Defined / equivalent value; modified metric
     absent / X / equal to its base metric): TLC (Mode=equiv) finds the equivalent option pairs itself and demands equal scores"""
@@ -251,7 +279,7 @@ def equiv_tables(tier, seed):
 
 
 # ------------------------------------------------------------------------------------------
-def record(tabs, work, seed, c09=False, name="tab", rows=None, nsamples=2, max_entries_per_file=4000000):
+def record(tabs, work, seed, c09=False, name="tab", rows=None, nsamples=2, max_entries_per_file=4000000, eqsets=False):
     """Run the real constructors over all rows of `tabs`.  Returns a list of trace files, each a
     JSON object {tables, rows} of at most max_entries_per_file entries; plus totals."""
     allrows = rows if rows is not None else [r for t, h in enumerate(tabs, 1) for r in rows_of(t, h)]
@@ -269,7 +297,7 @@ def record(tabs, work, seed, c09=False, name="tab", rows=None, nsamples=2, max_e
     for k, rs in enumerate(jobs):
         if rs:
             specs.append({"out": os.path.join(work, "%s.%d.json" % (name, k)), "tables": tabs, "rows": rs,
-                          "nsamples": nsamples, "seed": seed + k, "c09": c09})
+                          "nsamples": nsamples, "seed": seed + k, "c09": c09, "eqsets": eqsets})
     run_driver("tables.py", specs, work, name=name)
     files, cur, cur_n, fno = [], [], 0, 0
 
